@@ -165,8 +165,10 @@ func (w wWidth) enc() string {
 }
 
 type wLeaf struct {
-	Kind string `json:"kind"` // image divider text imagew (explicit pixel width W) carousel
+	Kind string `json:"kind"` // image divider text imagew (explicit pixel width W) carousel dividerp (percentage width P[0]/P[1], written PText)
 	W    int    `json:"w,omitempty"`
+	P    [2]int `json:"p,omitempty"`
+	PT   string `json:"pt,omitempty"`
 	E    wEdges `json:"e"` // its own padding; Border = the image's own border (narrows the default width on both sides)
 	// attributes that select other markup paths but have nothing to do with widths (alignment, links, colours): not part of the
 	// Model's input, so any influence on a width shows as a disagreement
@@ -183,6 +185,8 @@ func (l wLeaf) mjml(id string) string {
 		return fmt.Sprintf(`<mj-carousel thumbnails="hidden"><mj-carousel-image src="c.png" alt="leaf%s"/></mj-carousel>`, id)
 	case "divider":
 		return fmt.Sprintf(`<mj-divider css-class="leaf%s"%s%s/>`, id, l.E.padAttr(), l.Look)
+	case "dividerp":
+		return fmt.Sprintf(`<mj-divider css-class="leaf%s" width="%s"%s%s/>`, id, l.PT, l.E.padAttr(), l.Look)
 	}
 	return "<mj-text" + l.Look + ">t</mj-text>"
 }
@@ -204,6 +208,8 @@ func (l wLeaf) enc() string {
 		return "k"
 	case "divider":
 		return fmt.Sprintf("d%d,%d", a, b)
+	case "dividerp":
+		return fmt.Sprintf("q%d,%d,%d,%d", a, b, l.P[0], l.P[1])
 	}
 	return "n"
 }
@@ -543,8 +549,23 @@ func genWidth(r *Rng) wWidth {
 	return wWidth{Kind: "a"}
 }
 
+// percentage widths of a divider: whole and fractional (binary fractions, so that the code's float arithmetic is exact), the
+// same value spelt with a trailing zero
+var dividerPcts = []struct {
+	a, b int
+	text string
+}{{50, 1, "50%"}, {75, 2, "37.5%"}, {125, 2, "62.5%"}, {25, 2, "12.5%"}, {133, 4, "33.25%"}, {80, 1, "80%"}, {100, 1, "100%"}, {50, 1, "50.0%"}, {1, 2, "0.5%"}, {399, 4, "99.75%"}}
+
+func dividerP(i int) wLeaf {
+	p := dividerPcts[i%len(dividerPcts)]
+	return wLeaf{Kind: "dividerp", P: [2]int{p.a, p.b}, PT: p.text}
+}
+
 func genWLeaf(r *Rng) wLeaf {
-	l := wLeaf{Kind: r.Pick([]string{"image", "image", "divider", "divider", "text", "text", "imagew", "carousel"})}
+	l := wLeaf{Kind: r.Pick([]string{"image", "image", "divider", "divider", "text", "text", "imagew", "carousel", "dividerp"})}
+	if l.Kind == "dividerp" {
+		l = dividerP(r.Intn(len(dividerPcts)))
+	}
 	if r.Bool(1, 3) && l.Kind != "carousel" {
 		l.E = genEdges(r, wForms, 0)
 	}
@@ -557,6 +578,8 @@ func genWLeaf(r *Rng) wLeaf {
 	case "imagew":
 		l.W = []int{40, 100, 250, 400, 900}[r.Intn(5)]
 	case "carousel":
+	case "dividerp":
+		l.Look = r.Pick(leafLooks["divider"])
 	default:
 		l.Look = r.Pick(leafLooks[l.Kind])
 	}
@@ -673,6 +696,19 @@ func widthDocs(tier string, seed int64) []*wDoc {
 			docs = append(docs, &wDoc{Body: body, Hero: true, Sec: plain, Leaves: []wLeaf{lf}})
 			docs = append(docs, &wDoc{Body: body, Hero: true, Sec: wEdges{PadForm: "2", Pad: [4]int{0, 50, 0, 50}}, Leaves: []wLeaf{lf, {Kind: "divider"}}})
 		}
+	}
+	// dividers with a percentage width, whole and fractional: in a full column, a pixel-width column, a padded column, a padded
+	// hero, with their own padding
+	for i := range dividerPcts {
+		lf := dividerP(i)
+		e := wEdges{PadForm: "2", Pad: [4]int{0, 40, 0, 40}}
+		docs = append(docs, &wDoc{Body: 600, Sec: plain, Items: []wItem{{Col: &wCol{W: wWidth{Kind: "a"}, Leaf: lf}}}})
+		docs = append(docs, &wDoc{Body: 600, Sec: plain, Items: []wItem{{Col: &wCol{W: wWidth{"x", 210, 1}, Leaf: lf}}, {Col: &wCol{W: wWidth{Kind: "a"}, Leaf: wLeaf{Kind: "text"}}}}})
+		docs = append(docs, &wDoc{Body: 600, Sec: plain, Items: []wItem{{Col: &wCol{W: wWidth{Kind: "a"}, E: e, Leaf: lf}}}})
+		docs = append(docs, &wDoc{Body: 520, Hero: true, Sec: e, Leaves: []wLeaf{lf, {Kind: "divider"}}})
+		lp := lf
+		lp.E = wEdges{PadForm: "4", Pad: [4]int{5, 15, 5, 35}}
+		docs = append(docs, &wDoc{Body: 600, Sec: e, Items: []wItem{{Col: &wCol{W: wWidth{"p", 50, 1}, Leaf: lp}}, {Col: &wCol{W: wWidth{"p", 50, 1}, Leaf: lf}}}})
 	}
 	// every cosmetic look of every leaf kind, alone in a column (which selects the single-column markup paths) and next to a
 	// sibling, under a padded / bordered section, wrapper and column
@@ -832,14 +868,37 @@ func checkWidthDoc(res *Result, drv *DriverPool, d *wDoc, html string, sample bo
 	// (2) the property on the real output, judged by the Spec (exact rationals): whole-pixel agreement wherever the Spec
 	//     leaves something to fill, nesting, and the sibling sum
 	var badSpec []string
+	// dividers with a percentage width: the percentage is cut to a whole pixel — one more rounding step on the way
+	pctLeaf := map[string]bool{}
+	for i, l := range d.Leaves {
+		pctLeaf[fmt.Sprintf("leaf:h%d", i)] = l.Kind == "dividerp"
+	}
+	for i, it := range d.Items {
+		if it.Col != nil {
+			pctLeaf[fmt.Sprintf("leaf:%d", i)] = it.Col.Leaf.Kind == "dividerp"
+		}
+		if it.Group != nil {
+			for j, c := range it.Cols {
+				pctLeaf[fmt.Sprintf("leaf:%d_%d", i, j)] = c.Leaf.Kind == "dividerp"
+			}
+		}
+	}
 	tol := func(k string) float64 {
+		extra := 0.0
+		if pctLeaf[k] {
+			extra = 1
+		}
 		switch {
 		case k == "W" || k == "S":
 			return 0.001
 		case strings.HasPrefix(k, "gcol:") || (strings.HasPrefix(k, "leaf:") && strings.Contains(k, "_")):
-			return 2 // two roundings on the way (group, then column)
+			return 2 + extra // two roundings on the way (group, then column)
+		case strings.HasPrefix(k, "leaf:h"):
+			if extra > 0 {
+				return 1
+			}
 		}
-		return 1
+		return 1 + extra
 	}
 	degenerate := false
 	for _, k := range keys {
@@ -896,7 +955,7 @@ func checkWidthDoc(res *Result, drv *DriverPool, d *wDoc, html string, sample bo
 }
 
 func runC10(res *Result, tier string, seed int64, replay string) {
-	res.Rule = "lengths: strings made of what a length may be written with (digits, points, signs, units in both cases, exponents, ASCII and Unicode white space, border shorthands) through strings.Fields / styles.ParseHorizontalSpacing / ParsePixel / ParseBorderWidth vs the Lean Model Core/Lengths (driver `len`; plain decimals are inside the number grammar, anything else only must not crash); width documents: body width {600,500,480,640,700} × optional wrapper (boxed or full-width) × (section with 1–4 children: columns or groups of 1–3 columns; automatic / integer and fractional percentages / pixel widths | hero with images and dividers), every box with padding written in every form (absent, 1/2/3/4-value shorthand, per-side attributes alone and overriding a shorthand) and the lengths spelt in every way that means the same (20px, 20, 20.0px; values separated by a tab or two blanks, blanks around) and borders (all sides, border-left override); images and dividers without explicit width, with their own paddings (images also with their own border), images with an explicit width below and above what the column leaves, carousels; the column's padding / border written on the element, in an mj-class or as the mj-column default; first one feature at a time from a plain base (exhaustive list), then seeded combinations. Widths are scraped from the real output with the Lean lexer (wrapper / section max-width, Outlook td width per column and group, Outlook cells of columns inside groups, img width, divider Outlook table width) and compared (1) with the Model `Widths.impl` (driver `width`) exactly — the correspondence — and (2) with the Spec `Widths.spec` (driver `widthspec`, exact rationals): |Δ| < 1 px per rounding step, plus the sibling-sum clause. Non-trivial = padding/border/wrapper/hero/group somewhere or ≥2 columns; distinct by source"
+	res.Rule = "lengths: strings made of what a length may be written with (digits, points, signs, units in both cases, exponents, ASCII and Unicode white space, border shorthands) through strings.Fields / styles.ParseHorizontalSpacing / ParsePixel / ParseBorderWidth vs the Lean Model Core/Lengths (driver `len`; plain decimals are inside the number grammar, anything else only must not crash); width documents: body width {600,500,480,640,700} × optional wrapper (boxed or full-width) × (section with 1–4 children: columns or groups of 1–3 columns; automatic / integer and fractional percentages / pixel widths | hero with images and dividers), every box with padding written in every form (absent, 1/2/3/4-value shorthand, per-side attributes alone and overriding a shorthand) and the lengths spelt in every way that means the same (20px, 20, 20.0px; values separated by a tab or two blanks, blanks around) and borders (all sides, border-left override); images and dividers without explicit width, dividers with a whole or fractional percentage width, with their own paddings (images also with their own border), images with an explicit width below and above what the column leaves, carousels; the column's padding / border written on the element, in an mj-class or as the mj-column default; first one feature at a time from a plain base (exhaustive list), then seeded combinations. Widths are scraped from the real output with the Lean lexer (wrapper / section max-width, Outlook td width per column and group, Outlook cells of columns inside groups, img width, divider Outlook table width) and compared (1) with the Model `Widths.impl` (driver `width`) exactly — the correspondence — and (2) with the Spec `Widths.spec` (driver `widthspec`, exact rationals): |Δ| < 1 px per rounding step, plus the sibling-sum clause. Non-trivial = padding/border/wrapper/hero/group somewhere or ≥2 columns; distinct by source"
 	drv, err := startDriverPool(8)
 	if err != nil {
 		res.Disagree(Violation{Sig: "driver-missing", What: err.Error()})
